@@ -286,6 +286,7 @@ func (cf *CloudflarePublisher) getZoneData(ctx context.Context, zone string, dat
 				Count      int `json:"count"`
 				Page       int `json:"page"`
 				PerPage    int `json:"per_page"`
+				TotalCount int `json:"total_count"`
 				TotalPages int `json:"total_pages"`
 			} `json:"result_info"`
 		}
@@ -298,7 +299,7 @@ func (cf *CloudflarePublisher) getZoneData(ctx context.Context, zone string, dat
 		for _, r := range result.Result {
 			data[zoneName{zone, r.Name}] = idData{zoneID, r.ID, r.Data}
 		}
-		if len(result.Result) == 0 || result.ResultInfo.Page >= result.ResultInfo.TotalPages || result.ResultInfo.Page*result.ResultInfo.PerPage >= result.ResultInfo.Count {
+		if len(result.Result) == 0 || result.ResultInfo.Page >= result.ResultInfo.TotalPages || result.ResultInfo.Page*result.ResultInfo.PerPage >= result.ResultInfo.TotalCount {
 			break
 		}
 	}
